@@ -9,6 +9,7 @@ import Prom.Drv.Conc
 import Prom.Drv.Text
 import Prom.Drv.Pb
 import Prom.Drv.C16
+import Prom.Drv.Macro
 /- Line-protocol driver: one request per line on stdin, one result per line on stdout. -/
 open Prom Prom.Drv
 
@@ -24,6 +25,7 @@ def step (st : DState) (line : String) : DState × String :=
   | ["case"] => ({}, "case")
   | "hist" :: args => (st, histHandle args)
   | "desc" :: args => (st, descHandle args)
+  | "macro" :: args => (st, macroHandle args)
   | "text" :: args => (st, textHandle args)
   | "pb" :: args => (st, pbHandle args)
   | "catom" :: args => (st, concHandle "catom" args)
